@@ -125,7 +125,9 @@ def run(chk):
     n_ann = 90 if tier == 'quick' else 1200
     anns = []
     for i in range(n_ann):
-        a = gen_case(rng, 6 if i % 3 else 4)
+        # one case in ten carries intervals (outside the property's quantifier: they are popped and never come back;
+        # kept so that the model's claim about them stays tied to the code)
+        a = gen_case(rng, 6 if i % 3 else 4, intervals=(i % 10 == 9))
         anns.append(a)
     cases = []
     for a in anns:
@@ -228,7 +230,9 @@ def run(chk):
         # the string-level API agrees
         strs = getattr(pt, impl_fn(op))(a.copy(), k)
         if strs != [r.serialize() for r in res]:
-            return 'peptacular.%s(strings) differs from the annotation method' % impl_fn(op)
+            return 'peptacular.%s(annotation) differs from the annotation method' % impl_fn(op)
+        if a._intervals is None and getattr(pt, impl_fn(op))(a.serialize(), k) != strs:
+            return 'peptacular.%s(string) differs from the annotation method' % impl_fn(op)
         return None
 
     chk.oracle('corpus', corpus, o_expand, key_fn=lambda c: line(c))
